@@ -313,3 +313,15 @@ Theorem C12_components_partition :
   (forall u, In u (node_ids g) -> exists c, In c (components g) /\ In u c).
 Proof. exact components_partition. Qed.
 Print Assumptions C12_components_partition.
+
+(** ** 13. prune_automorphisms=True.  WHICH mapping represents a host node set is VF2's choice (first in its enumeration
+    order) and is not modelled; orientation, last_size, subsets tried and the SET of host node sets that keep a
+    representative are (observable [run_matcher_auto], compared on every such case): each host node set occurs once, and
+    they are exactly the sorted host node sets of the mappings of the unpruned result, to which theorems 1-2 apply. *)
+Theorem C12_prune_auto_host_sets :
+  forall maps : list mapping,
+  NoDup (host_sets maps) /\
+  (forall hs, In hs (host_sets maps) <-> exists m, In m maps /\ host_set m = hs) /\
+  (forall m, Permutation (host_set m) (map snd m)).
+Proof. exact host_sets_spec. Qed.
+Print Assumptions C12_prune_auto_host_sets.
